@@ -118,6 +118,11 @@ pub struct C11Scenario {
     pub hash_seed: u64,
     pub alt_walk_seed: u64,
     pub alt_hash_seed: u64,
+    /// the reference run keeps the bad files (only injected faults are dropped): set when
+    /// the *existence* of a file influences its healthy siblings (`convert_require`
+    /// resolves required paths but never reads them)
+    #[serde(default)]
+    pub keep_bad_in_reference: bool,
 }
 
 // ---------------------------------------------------------------- C10
